@@ -7,7 +7,7 @@ def _sum(results, key):
 
 CHECKS = {}
 # checks run end-to-end and reviewed by the lead; only these are claimed in MANIFEST.json
-REVIEWED = ["C01", "C02", "C03", "C04", "C06", "C10", "C12", "C13", "C14", "C15", "C17", "C18", "C19"]
+REVIEWED = ["C01", "C02", "C03", "C04", "C05", "C06", "C07", "C09", "C10", "C11", "C12", "C13", "C14", "C15", "C17", "C18", "C19", "C20"]
 NOT_APPLICABLE = {}  # property -> reason, for properties deliberately not claimed
 
 # ------------------------------------------------------------------------------------------------ C01
@@ -87,7 +87,8 @@ CHECKS["C03"] = dict(
          "after normalisation/defaulting with specified flags, text, CDATA sections, comments, PIs, DOCTYPE, entity/notation declarations, element line "
          "numbers derived independently from the raw bytes) of SAX2 is compared with expat's, SAX1/progressive/DOM/DOMLS/DOM-with-entity-reference-nodes "
          "pairwise with SAX2, DOM additionally with expat directly, all four scanners with IGXMLScanner; XML 1.1 documents against the by-construction "
-         "infoset. Non-trivial = well-formed (document, namespace mode) pairs whose content was compared.",
+         "infoset. Ladder: 25 constructs (multi-byte characters, CR LF, CDATA end, references, tags, ...) x 4 pad widths placed at every offset -s..+s around the "
+         "16384-character refill, the 49152-byte raw refill and the low-water mark of 50-100 KB documents, content compared with expat. Non-trivial = well-formed (document, namespace mode) pairs whose content was compared.",
     trusted_base=["expat 2.5.0 as reference infoset oracle", "clang 14 ASan/UBSan"],
     assumptions=["SAX2 startDTD/endDTD are compared only when the DOCTYPE has an internal or external subset (documented 'DTD declarations, if any')",
                  "PIs inside the DTD are not forwarded by SAX/SAX2 by design (doctypePI unused) and comments inside the DTD have no DOM node: both are projected away",
@@ -98,12 +99,14 @@ CHECKS["C03"] = dict(
         quick=[_px("s1-words-k2", "--space", "s1", "--k", 2),
                _px("s3-catalogue", "--space", "s3"),
                _px("s11-xml11-k2", "--space", "s11", "--k", 2),
-               _px("s4-dtd-rich-k2", "--space", "s4", "--k", 2, "--rootattrs", 2)],
+               _px("s4-dtd-rich-k2", "--space", "s4", "--k", 2, "--rootattrs", 2),
+               dict(name="ladder-buffer-boundaries", driver="chunkx", args=["--space", "slide", "--slide", 1, "--max-viol", 400])],
         thorough=[_px("s1-words-k3", "--space", "s1", "--k", 3),
                   _px("s3-catalogue", "--space", "s3"),
                   _px("s11-xml11-k3", "--space", "s11", "--k", 3),
                   _px("s4-dtd-rich-k2", "--space", "s4", "--k", 2, "--rootattrs", 4),
-                  _px("s4-dtd-rich-k3", "--space", "s4", "--k", 3, "--rootattrs", 1, "--apis", 6)],
+                  _px("s4-dtd-rich-k3", "--space", "s4", "--k", 3, "--rootattrs", 1, "--apis", 6),
+                  dict(name="ladder-buffer-boundaries", driver="chunkx", args=["--space", "slide", "--slide", 8, "--max-viol", 400])],
     ),
     manifest=dict(technique="bounded-exhaustive enumeration of token words, event-stream differential against expat and pairwise between APIs/scanners"),
 )
